@@ -9,3 +9,4 @@ import Properties.Full
 #print axioms Hive.C17.run_pairs_waiting
 #print axioms Hive.C17.dispatcher_instructions_ok
 #print axioms Hive.Full.C17
+#print axioms Hive.Full.no_pooling
